@@ -325,47 +325,82 @@ Theorem C05_hourly_data_stage_ni : forall (Wc W O : Type) (w_empty : Wc -> bool)
 Proof. exact @data_stage_ni. Qed.
 Print Assumptions C05_hourly_data_stage_ni.
 
-(* Full statement from the caller's records to the predictions, for a way of selecting among repeated stamps and a way of
-   counting the rows of a date *)
-Definition C05_hourly_public_statement (dp : dedup_policy) (pol : policy) : Prop :=
-  forall (Wc W O F C Y : Type) (K : oracles W O F C Y) (w_empty : Wc -> bool)
-         (calendar : list Z -> list (list cal_stamp * option err)) (fill_w : list (option Wc) -> list W)
-         (fill_o : list (option O) -> list (option O)) (t : table) (a b : list (rec Wc O)),
-    same_records_but_usage a b ->
-    covers t (data_stage w_empty calendar fill_w fill_o dp a) = true ->
-    agree (hourly_flow K pol t (data_stage w_empty calendar fill_w fill_o dp a))
-          (hourly_flow K pol t (data_stage w_empty calendar fill_w fill_o dp b)).
+(* ... and the zero rule of electricity data in front of it touches the usage cell only *)
+Theorem C05_hourly_public_stage_ni : forall (Wc W O : Type) (is_zero : O -> bool) (w_nan : Wc) (w_empty : Wc -> bool)
+    (calendar : list Z -> list (list cal_stamp * option err)) (fill_w : list (option Wc) -> list W)
+    (fill_o : list (option O) -> list (option O)) elec elec' (a b : list (rec Wc O)),
+  same_records_but_usage a b ->
+  same_weather_calendar (public_stage is_zero w_nan w_empty calendar fill_w fill_o ZeroUsageCell elec KeepFirst a)
+                        (public_stage is_zero w_nan w_empty calendar fill_w fill_o ZeroUsageCell elec' KeepFirst b).
+Proof. exact @public_stage_ni. Qed.
+Print Assumptions C05_hourly_public_stage_ni.
 
-Theorem C05_hourly_public_ni : forall pol, count_rows pol = true -> C05_hourly_public_statement KeepFirst pol.
+(* Full statement from the caller's records to the predictions, for a zero rule, a way of selecting among repeated stamps
+   and a way of counting the rows of a date (electricity or not) *)
+Definition C05_hourly_public_statement (zp : zero_policy) (dp : dedup_policy) (pol : policy) : Prop :=
+  forall (Wc W O F C Y : Type) (K : oracles W O F C Y) (is_zero : O -> bool) (w_nan : Wc) (w_empty : Wc -> bool)
+         (calendar : list Z -> list (list cal_stamp * option err)) (fill_w : list (option Wc) -> list W)
+         (fill_o : list (option O) -> list (option O)) (elec : bool) (t : table) (a b : list (rec Wc O)),
+    same_records_but_usage a b ->
+    covers t (public_stage is_zero w_nan w_empty calendar fill_w fill_o zp elec dp a) = true ->
+    agree (hourly_flow K pol t (public_stage is_zero w_nan w_empty calendar fill_w fill_o zp elec dp a))
+          (hourly_flow K pol t (public_stage is_zero w_nan w_empty calendar fill_w fill_o zp elec dp b)).
+
+Theorem C05_hourly_public_ni : forall pol, count_rows pol = true ->
+  C05_hourly_public_statement ZeroUsageCell KeepFirst pol.
 Proof.
-  intros pol Hp Wc W O F C Y K w_empty calendar fill_w fill_o t a b H Hc.
-  apply (C05_hourly_ni_count_rows pol Hp); [apply data_stage_ni; exact H | exact Hc].
+  intros pol Hp Wc W O F C Y K is_zero w_nan w_empty calendar fill_w fill_o elec t a b H Hc.
+  apply (C05_hourly_ni_count_rows pol Hp); [apply public_stage_ni; exact H | exact Hc].
 Qed.
 Print Assumptions C05_hourly_public_ni.
 
 (* selection that looks at the usage cell (records without any reading discarded before the de-duplication) breaks it,
    however the rows are counted: with usage the meter record survives and the hour is predicted from a gap-filled
    temperature (0), without usage the weather record survives (70) *)
-Theorem C05_hourly_public_refuted_drop_empty : forall pol, ~ C05_hourly_public_statement DropEmptyKeepFirst pol.
+Theorem C05_hourly_public_refuted_drop_empty : forall zp pol, ~ C05_hourly_public_statement zp DropEmptyKeepFirst pol.
 Proof.
-  intros pol H.
-  specialize (H (option Z) Z unit Z unit Z weather_oracles temp_empty one_day_calendar fill_zero (fun l => l)
-                [((6, 2), 0)]%Z (witness_recs (Some tt)) (witness_recs None)).
+  intros zp pol H.
+  specialize (H (option Z) Z unit Z unit Z (weather_oracles unit) (fun _ => false) None temp_empty one_day_calendar fill_zero
+                (fun l => l) false [((6, 2), 0)]%Z (witness_recs (Some tt)) (witness_recs None)).
   assert (S : same_records_but_usage (witness_recs (Some tt)) (witness_recs None)) by (vm_compute; reflexivity).
-  specialize (H S). assert (Cv : covers [((6, 2), 0)]%Z (witness_stage DropEmptyKeepFirst (witness_recs (Some tt))) = true)
-    by (vm_compute; reflexivity).
-  specialize (H Cv). destruct pol as [[|] [|]]; vm_compute in H;
-    specialize (H 0%Z 0%Z 70%Z (or_introl eq_refl) (or_introl eq_refl)); discriminate.
+  specialize (H S).
+  assert (Cv : covers [((6, 2), 0)]%Z (public_stage (fun _ : unit => false) None temp_empty one_day_calendar fill_zero (fun l => l)
+                                          zp false DropEmptyKeepFirst (witness_recs (Some tt))) = true)
+    by (destruct zp; vm_compute; reflexivity).
+  specialize (H Cv). destruct zp; destruct pol as [[|] [|]]; vm_compute in H;
+    first [exact H | specialize (H 0%Z 0%Z 70%Z (or_introl eq_refl) (or_introl eq_refl)); discriminate].
 Qed.
 Print Assumptions C05_hourly_public_refuted_drop_empty.
 
+(* a zero rule that blanks the whole record (seeded C05-4) breaks it as well: an electricity reading of exactly 0 wipes
+   the temperature of its hour (gap-filled: 0), any other reading leaves it (50) *)
+Theorem C05_hourly_public_refuted_zero_row : forall dp pol, ~ C05_hourly_public_statement ZeroWholeRow dp pol.
+Proof.
+  intros dp pol H.
+  specialize (H (option Z) Z Z Z unit Z (weather_oracles Z) (Z.eqb 0) None temp_empty one_day_calendar fill_zero
+                (fun l => l) true [((6, 2), 0)]%Z (zero_recs 0) (zero_recs 5)).
+  assert (S : same_records_but_usage (zero_recs 0) (zero_recs 5)) by (vm_compute; reflexivity).
+  specialize (H S).
+  assert (Cv : covers [((6, 2), 0)]%Z (public_stage (Z.eqb 0) None temp_empty one_day_calendar fill_zero (fun l => l)
+                                          ZeroWholeRow true dp (zero_recs 0)) = true)
+    by (destruct dp; vm_compute; reflexivity).
+  specialize (H Cv). destruct dp; destruct pol as [[|] [|]]; vm_compute in H;
+    first [exact H | specialize (H 0%Z 0%Z 50%Z (or_introl eq_refl) (or_introl eq_refl)); discriminate].
+Qed.
+Print Assumptions C05_hourly_public_refuted_zero_row.
+
 Example C05_hourly_public_witness :
-  (exists out, hourly_flow weather_oracles count_rows_only [((6, 2), 0)]%Z (witness_stage KeepFirst (witness_recs (Some tt))) = Ok out
+  (exists out, hourly_flow (weather_oracles unit) count_rows_only [((6, 2), 0)]%Z (witness_stage KeepFirst (witness_recs (Some tt))) = Ok out
                /\ In (0%Z, Some 0%Z) out) /\
-  (exists out, hourly_flow weather_oracles count_rows_only [((6, 2), 0)]%Z (witness_stage KeepFirst (witness_recs None)) = Ok out
+  (exists out, hourly_flow (weather_oracles unit) count_rows_only [((6, 2), 0)]%Z (witness_stage KeepFirst (witness_recs None)) = Ok out
                /\ In (0%Z, Some 0%Z) out) /\
-  (exists out, hourly_flow weather_oracles count_rows_only [((6, 2), 0)]%Z (witness_stage DropEmptyKeepFirst (witness_recs None)) = Ok out
-               /\ In (0%Z, Some 70%Z) out).
+  (exists out, hourly_flow (weather_oracles unit) count_rows_only [((6, 2), 0)]%Z (witness_stage DropEmptyKeepFirst (witness_recs None)) = Ok out
+               /\ In (0%Z, Some 70%Z) out) /\
+  (* zero rule: on the usage cell only, a reading of 0 and a reading of 5 give the same 50 degrees; on the whole row not *)
+  (exists out, hourly_flow (weather_oracles Z) count_rows_only [((6, 2), 0)]%Z (zero_stage_witness ZeroUsageCell (zero_recs 0)) = Ok out
+               /\ In (0%Z, Some 50%Z) out) /\
+  (exists out, hourly_flow (weather_oracles Z) count_rows_only [((6, 2), 0)]%Z (zero_stage_witness ZeroWholeRow (zero_recs 0)) = Ok out
+               /\ In (0%Z, Some 0%Z) out).
 Proof. repeat split; eexists; (split; [vm_compute; reflexivity | left; reflexivity]). Qed.
 
 (* ================================================================== CalTRACK hourly ======================= *)
